@@ -41,13 +41,14 @@ def forbidden_keys():
     return _forbidden
 
 
-MERGE_KEYS = st.sampled_from(['a', 'b', 'c', 'd', 'x', '_u', 0, 1, 2, -1])
-MERGE_KEYS_NONEG = st.sampled_from(['a', 'b', 'c', 'd', 'x', '_u', 0, 1, 2])
+# '_delete' / '_func': names of instance attributes of the node classes (not class attributes, which the loader rejects) are keys like any other
+MERGE_KEYS = st.sampled_from(['a', 'b', 'c', 'd', 'x', '_u', '_delete', 0, 1, 2, -1])
+MERGE_KEYS_NONEG = st.sampled_from(['a', 'b', 'c', 'd', 'x', '_u', '_delete', 0, 1, 2])
 
 
 def any_keys():
     weird = st.one_of(
-        st.sampled_from(['a', 'b', 'c', '_x', '__y', '_', 'A b', 'k-1', 'yes', '1', '1.5', 'null', '~', 'é', 'a.b', 'a[0]', "q'q", 'x:y', '0x1']),
+        st.sampled_from(['a', 'b', 'c', '_x', '__y', '_', '_delete', '_func', '_priority', '_children', 'A b', 'k-1', 'yes', '1', '1.5', 'null', '~', 'é', 'a.b', 'a[0]', "q'q", 'x:y', '0x1']),
         st.integers(-5, 40), st.sampled_from([2**40, -7]),
         st.sampled_from([1.5, -0.5, 1e22, 2.0, 0.25]),
         st.text(alphabet='abc_XY09 -.', min_size=1, max_size=6))
